@@ -17,7 +17,7 @@ NOT decided: that the values are those of the consensus evaluator (C06's value-l
 (cldb_hierarchy), hex-vs-source equivalence."""
 import runner
 from flow import Flow
-from mir import callee_of, op_local, op_place, rv_operands
+from mir import callee_of, op_const, op_local, op_place, rv_operands
 from paths import must_pass
 from report import Report
 
@@ -183,6 +183,31 @@ def run(tier="quick", replay=None):
                 "auto: the environment is given (operator, context, arguments) = (Op.0, Op.1, Op.2)",
                 "the row's context is not built from (Op.0, Op.1, Op.2) in that order (got %s): rows would attribute an operator to "
                 "the wrong arguments or environment" % [sorted(g) for g in got], fn=STEP)
+        # ... and the arguments are always handed over: the pending row is a map that keeps what earlier transitions wrote,
+        # so an operator whose Arguments entry is skipped (None) is printed with the arguments of an earlier operator
+        if len(t["args"]) > 3:
+            al = op_local(t["args"][3])
+            vs = set()
+            chain = {al} if al is not None else set()
+            grew = True
+            while grew:          # whole-value copies of the Option only (not what its payload was computed from)
+                grew = False
+                for _, _, st in f.stmts():
+                    if fl.node(st["pl"]) in chain and not st["pl"]["p"] and st["rv"]["k"] == "use":
+                        pp = op_place(st["rv"]["op"])
+                        if pp is not None and not pp["p"] and pp["l"] not in chain:
+                            chain.add(pp["l"])
+                            grew = True
+            for x in chain:
+                for _, _, st in f.stmts():
+                    if fl.node(st["pl"]) == x and not st["pl"]["p"] and st["rv"]["k"] == "agg" and st["rv"].get("variant") in ("Some", "None"):
+                        vs.add(st["rv"]["variant"])
+            c3 = op_const(t["args"][3]) if t["args"][3].get("k") == "const" else None
+            R.check("None" not in vs and c3 is None and "Some" in vs, "R12.field", "R12.field|arguments-always-written", f.loc(bb),
+                    "auto: every operator row is given its own arguments (the Arguments operand is Some(..) on every path)",
+                    "CldbRun::step hands the row's context over without arguments on some path (the Arguments operand can be None): the "
+                    "pending row keeps the Arguments entry of an earlier operator, so the row shows an operator with arguments it was "
+                    "not applied to", fn=STEP)
     R.floor("R12.field", "reported fields traced to their transition component", nfield, 7, site)
 
     # ---------------- R12.terminal ---------------------------------------------------------------
